@@ -29,7 +29,7 @@ TIMEOUT = 900
 
 
 def cases(tier, seed):
-    forms = ["bare", "attr", "alias", "wrapped"]
+    forms = ["bare", "attr", "alias", "wrapped", "pkginit", "initroot"]
     for form in forms:
         edges = all_edges(3, form)
         graphs = [(kinds, mask) for kinds in itertools.product(["memento", "plain"], repeat=2)
@@ -49,7 +49,8 @@ def cases(tier, seed):
 
 
 def all_edges(n, form):
-    if form == "attr":  # root lives in module b, the others in module a (which cannot name the root)
+    if form in ("attr", "pkginit", "initroot"):  # root lives in module b, the others in module a (which cannot name the root)
+        # (pkginit: root in sub-module b, the others in the package's __init__.py; initroot: the other way round)
         return [(u, v) for u in range(n) for v in range(n) if not (u > 0 and v == 0)]
     if form == "bare4":
         return [(u, v) for u in range(n) for v in range(n) if u != v]
@@ -61,10 +62,18 @@ def render_small(pkg, n, kinds, edges, form):
     """Returns {module: text}. Node 0 is the root memento function."""
     kinds = ["memento"] + list(kinds)
     mod_of = (lambda u: "b" if (form == "attr" and u == 0) else "a")
-    texts = {"a": ["import functools", "import twosigma.memento as m", "from vf.recorder import REC", ""],
-             "b": ["import functools", "import twosigma.memento as m", "from vf.recorder import REC",
-                   "import %s.a as a" % pkg, ""]}
-    aliases = {"a": [], "b": []}
+    if form == "pkginit":
+        mod_of = lambda u: "b" if u == 0 else "__init__"
+    elif form == "initroot":
+        mod_of = lambda u: "__init__" if u == 0 else "a"
+    std = ["import functools", "import twosigma.memento as m", "from vf.recorder import REC"]
+    texts = {"a": std + [""], "b": std + ["import %s.a as a" % pkg, ""], "__init__": []}
+    if form == "pkginit":
+        texts["__init__"] = std + [""]
+        texts["b"] = std + ["from %s import %s" % (pkg, ", ".join("n%d" % u for u in range(1, n))), ""]
+    elif form == "initroot":
+        texts["__init__"] = std + [""]
+    aliases = {"a": [], "b": [], "__init__": []}
     for u in range(n):
         L = texts[mod_of(u)]
         if kinds[u] == "memento":
@@ -88,7 +97,9 @@ def render_small(pkg, n, kinds, edges, form):
         L += ["    return x", ""]
     for mod in ("a", "b"):
         texts[mod] += aliases[mod]
-    return {k: "\n".join(v) + "\n" for k, v in texts.items()}
+    if form == "initroot":  # the package imports its sub-module after defining the root
+        texts["__init__"] += ["from %s.a import %s" % (pkg, ", ".join("n%d" % u for u in range(1, n)))]
+    return {k: ("\n".join(v) + "\n" if v else "") for k, v in texts.items()}
 
 
 def oracle_small(n, kinds, edges):
@@ -138,7 +149,6 @@ def small_child(arg):
     pkg = arg["pkg"]
     d = os.path.join(arg["root"], pkg)
     os.makedirs(d)
-    open(os.path.join(d, "__init__.py"), "w").close()
     for mod, text in arg["texts"].items():
         with open(os.path.join(d, mod + ".py"), "w") as f:
             f.write(text)
@@ -148,7 +158,7 @@ def small_child(arg):
     b = importlib.import_module(pkg + ".b")
     out = {}
     for name in arg["names"]:
-        fn = getattr(b, name, None) or getattr(a, name)
+        fn = getattr(b, name, None) or getattr(a, name, None) or getattr(sys.modules[pkg], name)
         out[name] = observe(fn)
     return out
 
@@ -252,7 +262,7 @@ def random_child(arg):
     out = {}
     for i in progs.roots(prog):
         nd = prog["nodes"][i]
-        fn = getattr(sys.modules["%s.%s" % (prog["pkg"], nd["mod"])], nd["name"])
+        fn = getattr(sys.modules[progs.modname(prog, nd["mod"])], nd["name"])
         o = observe(fn)
         try:
             fn(1)
@@ -274,7 +284,7 @@ def run_random(case, out, fail):
         except procs.ChildFailed as e:
             return fail("computing dependencies of a generated program raises", str(e)[-800:])
         nodes = prog["nodes"]
-        text = progs.render_module(prog, "a") + "\n" + progs.render_module(prog, "b")
+        text = progs.render_all(prog)
         for i in progs.roots(prog):
             nd = nodes[i]
             g = got[nd["name"]]
